@@ -4,7 +4,10 @@ from .. import core, build, server, httpstrict, serve, trace
 from ..gen import tree as treegen, req as reqgen
 from . import c07
 
-FAULTS = ["valid", "crasher", "mutant", "early-close", "rst-before-send", "rst-after-send", "rst-mid-request", "half-request-then-close", "idle-then-close", "oversized", "burst"]
+FAULTS = ["valid", "crasher", "mutant", "early-close", "rst-before-send", "rst-after-send", "rst-mid-request", "half-request-then-close", "idle-then-close", "oversized", "burst",
+          "rst-during-big-response", "close-without-reading-big-response", "never-read-then-close", "stall-all-workers-then-close", "half-close-then-read", "drip-then-close"]
+BIG = "/c06-big4m.bin"
+BIGREQ = ("GET %s HTTP/1.1\r\nHost: x\r\n\r\n" % BIG).encode()
 
 
 def corpus():
@@ -48,6 +51,76 @@ def step(srv, kind, rng, valid, crashers, mutants):
         elif kind == "idle-then-close":
             s = srv.connect()
             time.sleep(0.02)
+            s.close()
+        elif kind == "rst-during-big-response":
+            # the worker is in the middle of write_all of a 4 MiB body when the peer resets
+            s = srv.connect()
+            s.setsockopt(socket.SOL_SOCKET, socket.SO_RCVBUF, 4096)
+            s.sendall(BIGREQ)
+            try:
+                s.recv(rng.choice([1, 100, 5000]))
+            except (OSError, socket.timeout):
+                pass
+            server.rst_close(s)
+        elif kind == "close-without-reading-big-response":
+            s = srv.connect()
+            s.sendall(BIGREQ)
+            s.close()
+        elif kind == "never-read-then-close":
+            # the peer's window fills up, the worker blocks in write; then the peer goes away
+            s = srv.connect()
+            s.setsockopt(socket.SOL_SOCKET, socket.SO_RCVBUF, 4096)
+            s.sendall(BIGREQ)
+            time.sleep(rng.choice([0.05, 0.2]))
+            if rng.chance(1, 2):
+                server.rst_close(s)
+            else:
+                s.close()
+        elif kind == "stall-all-workers-then-close":
+            # more silent connections than workers: every worker is parked in read, the rest wait in the queue; then all go away
+            socks = []
+            for _ in range(srv.threads + 2):
+                try:
+                    socks.append(srv.connect())
+                except OSError:
+                    break
+            time.sleep(0.1)
+            for i, s in enumerate(socks):
+                try:
+                    if i % 2:
+                        server.rst_close(s)
+                    else:
+                        s.close()
+                except OSError:
+                    pass
+        elif kind == "half-close-then-read":
+            # legal client behaviour: send, shut down the sending side, read the answer
+            s = srv.connect()
+            s.sendall(rng.choice(valid).bytes())
+            s.shutdown(socket.SHUT_WR)
+            s.settimeout(6)
+            got = b""
+            try:
+                while True:
+                    b = s.recv(65536)
+                    if not b:
+                        break
+                    got += b
+            except socket.timeout:
+                s.close()
+                return "unanswered" if not got else None
+            s.close()
+        elif kind == "drip-then-close":
+            # the request arrives in pieces with pauses (the server reads once), then the peer closes without reading
+            s = srv.connect()
+            raw = rng.choice(valid).bytes()
+            k = rng.range(1, max(2, len(raw) - 1))
+            s.sendall(raw[:k])
+            time.sleep(0.03)
+            try:
+                s.sendall(raw[k:])
+            except OSError:
+                pass
             s.close()
         elif kind == "oversized":
             srv.request(b"GET / HTTP/1.1\r\nHost: x\r\nX-Pad: " + b"p" * rng.choice([10001, 20000, 40000]) + b"\r\n\r\n", timeout=10)
@@ -175,7 +248,8 @@ def probe_after(c, srv, t, n, history, probe_file):
 
 def run(c):
     c.rule = ("histories (length 1..300, longer than the worker count) of connections drawn from: valid requests, the committed crash corpus, fresh mutations, early close, RST before / after / in the middle of sending, "
-              "half-sent request, idle then close, oversized request, 50 connections at once; against the real binary with N in {1,2,3,4,8,16} workers; after quiescence: process alive, /proc census of worker threads, "
+              "half-sent request, idle then close, oversized request, 50 connections at once, reset / close / never read while a 4 MiB response is being written, N+2 silent connections parking every worker then closing, "
+              "half-close then read, request dripped in two pieces then close; against the real binary with N in {1,2,3,4,8,16} workers; after quiescence: process alive, /proc census of worker threads, "
               "hook events show every worker back in its loop, a valid GET answered byte-exactly, N-1 idle connections + one request still answered. In-process: the real pool runs Server::process jobs on transports "
               "with read / write-at-byte-k / flush errors and a rendezvous of N afterwards. Class = (fault-kind multiset, N, history-length class); non-trivial = contains >= 1 fault.")
     c.level = "fault_enumeration"
@@ -194,6 +268,7 @@ def run(c):
         mutants = []
         for r in valid:
             mutants += [raw for _, _, raw in reqgen.mutations(r, rng, 8) if len(raw) < 9000]
+        t.add_file(BIG, rng.bytes(4 << 20))
         probe_file = sorted(k for k in t.files if 50 < len(t.files[k]) < 5000)[0]
         histories = []
         ns = [1, 2, 3, 4, 8, 16]
